@@ -324,3 +324,13 @@ Theorem reader_skeleton_is_modelled :
   gen_jaspar_header_tag = model_header_tag /\ gen_jaspar16_header_tag = model_header_tag /\
   gen_jaspar_header_until = model_header_until /\ gen_jaspar16_header_until = model_header_until.
 Proof. repeat split; reflexivity. Qed.
+
+(* error.rs: `nom::Err::Incomplete(_) => unreachable!()` is a panic site without a counterpart in the model:
+   IoNom.pres has no Incomplete result because the parsers of the three parse.rs files are built from nom's
+   `complete` combinators only, which never return it.  That premise is re-read from the source on every run
+   (GenIoReader.v): no `streaming` parser / `Incomplete` / `Needed` is mentioned and every nom path comes from
+   bytes/character/number::complete, combinator, multi, sequence, branch or error -- or the arm no longer panics. *)
+Theorem io_parsers_are_complete :
+  (gen_io_parse_uses_streaming = false /\ gen_io_parse_foreign_nom_paths = 0) \/
+  gen_io_error_incomplete_is_panic = false.
+Proof. first [left; split; reflexivity | right; reflexivity]. Qed.
